@@ -1,13 +1,135 @@
 import Rooc.Wire
 import Rooc.Oracle
+import Rooc.Syntax.Parse
+import Rooc.Syntax.Ref
+import Rooc.Syntax.Wire
 namespace Rooc.Drv.C09
-open Rooc Sexp
+open Rooc Sexp Rooc.Syntax
 
-/-- model requests for C09 (run at `Float` for the exact diff, at `Ext Rat` as oracle). -/
+def encRes : TextRes → Sexp
+  | .ok t => app "ok" [t.enc]
+  | .err .reject => app "err" [.atom "reject"]
+  | .err .panic => app "err" [.atom "panic"]
+  | .err .fuel => app "err" [.atom "fuel"]
+  | .unsupported => app "err" [.atom "unsupported"]
+
+/-- model requests for C09: `(parse "<text>")` → the `PreExp` the objective `min <text>` parses to. -/
 def handle (α : Type) [Arith α] [Wire α] : List Sexp → Sexp
+  | [.atom "parse", .str s] => encRes (parseText s.toList)
   | _ => app "err" [.atom "bad-request"]
 
-/-- exact oracle: the PROPERTY evaluated on the implementation's own answer. -/
+/-- words that start (in any letter case) with `true`/`false` without being exactly that literal: the
+`boolean` rule has no boundary look-ahead and is tried before `variable`. -/
+def hasBoolPrefixWord : List Tok → Bool
+  | .word w :: .lpar :: rest => (!(isFunctionName w) && boolish w) || hasBoolPrefixWord rest
+  | .word w :: rest => boolish w || hasBoolPrefixWord rest
+  | _ :: rest => hasBoolPrefixWord rest
+  | [] => false
+where
+  boolish (w : String) : Bool := (boolPrefix w).isSome && w != "true" && w != "false"
+
+def vals : List Rat := [0, 1, 2, -1]
+
+/-- assignments: the first four variables range over all of `vals`, further ones follow a fixed rotation. -/
+def assignmentsFor (vs : List String) : List (String → Rat) :=
+  let main := vs.take 4
+  let extra := vs.drop 4
+  (Oracle.assignments vals main).map fun a s =>
+    match a.find? (·.1 == s) with
+    | some p => p.2
+    | none =>
+      match extra.findIdx? (· == s) with
+      | some i => vals.getD ((i + a.length) % 4) 1
+      | none => 1
+
+def close (v w : Rat) : Bool :=
+  let d := if v < w then w - v else v - w
+  let m := max 1 (max (if v < 0 then -v else v) (if w < 0 then -w else w))
+  d ≤ m / 1000000000
+
+def sameVal : Option Rat → Option Rat → Bool
+  | some v, some w => close v w
+  | none, none => true
+  | _, _ => false
+
+def showAssign (vs : List String) (ρ : String → Rat) : Sexp :=
+  .list (vs.map fun v => .list [.str v, .atom (toString (ρ v))])
+
+def showVal : Option Rat → Sexp
+  | some v => .atom (toString v)
+  | none => .atom "undef"
+
+inductive Verdict where
+  | agree (n : Nat)
+  | bothReject
+  | rejectsWellformed
+  | acceptsIllformed
+  | value (vs : List String) (ρ : String → Rat) (doc impl : Option Rat)
+
+def decodeImpl : Sexp → Option (Option Ref.E)
+  | .atom "reject" => some none
+  | .list [.atom "pre", t] => (PExp.dec t).map (fun p => some (Ref.ofPExp p))
+  | .list [.atom "compiled", e] => (Exp.dec e : Option (Exp (Ext Rat))).map some
+  | _ => none
+
+/-- the documented reading of the tokens against the implementation's tree -/
+def judge (toks : List Tok) (ie : Option Ref.E) : Verdict :=
+  match Ref.parse toks, ie with
+  | none, none => .bothReject
+  | some _, none => .rejectsWellformed
+  | none, some _ => .acceptsIllformed
+  | some r, some i =>
+    let vs := Oracle.dedup (Oracle.vars r ++ Oracle.vars i)
+    let asg := assignmentsFor vs
+    match asg.find? (fun ρ => !(sameVal (Sem.eval ρ r) (Sem.eval ρ i))) with
+    | some ρ => .value vs ρ (Sem.eval ρ r) (Sem.eval ρ i)
+    | none => .agree asg.length
+
+def Verdict.isOk : Verdict → Bool
+  | .agree _ | .bothReject => true
+  | _ => false
+
+def report (s : String) : Verdict → Sexp
+  | .agree n => app "ok" [.atom (toString n)]
+  | .bothReject => app "ok" [.atom "both-reject"]
+  | .rejectsWellformed => app "violation" [.atom "rejects-wellformed", .str s]
+  | .acceptsIllformed => app "violation" [.atom "accepts-illformed", .str s]
+  | .value vs ρ d i =>
+    app "violation" [.atom "value", .str s, showAssign vs ρ, app "documented" [showVal d], app "implementation" [showVal i]]
+
+/-- which of the two known shapes of the `boolean`-rule defect a token list contains -/
+def boolQuirkKind (toks : List Tok) : String :=
+  let longer := toks.any fun
+    | .word w => match boolPrefix w with
+      | some (_, rem) => rem != ""
+      | none => false
+    | _ => false
+  if longer then "bool-literal-prefix-of-identifier" else "bool-literal-case-variant"
+
+/-- exact oracle: the PROPERTY evaluated on the implementation's own answer: the value of the
+implementation's tree (compiled `Exp` when the program compiled, else its `PreExp`) against the
+independent precedence-climbing reading of the same text, at every assignment over {0,1,2,-1}.
+A deviation in a text with a `true…`/`false…` word is attributed to the `boolean` rule only if the
+same text with those words renamed (`twin`) shows no deviation. -/
 def oracle : List Sexp → Sexp
+  | .atom "check" :: .str s :: impl :: more =>
+    match lex s.toList with
+    | .unsupported => app "ok" [.atom "skipped-unsupported"]
+    | .ok toks =>
+      match decodeImpl impl with
+      | none => app "err" [.atom "decode"]
+      | some ie =>
+        let v := judge toks ie
+        if v.isOk then report s v
+        else
+          match more with
+          | [.list [.atom "twin", .str s2, impl2]] =>
+            match lex s2.toList, decodeImpl impl2 with
+            | .ok toks2, some ie2 =>
+              if hasBoolPrefixWord toks && (judge toks2 ie2).isOk then
+                app "violation" [.atom (boolQuirkKind toks), .str s]
+              else report s v
+            | _, _ => report s v
+          | _ => report s v
   | _ => app "err" [.atom "bad-request"]
 end Rooc.Drv.C09
